@@ -75,6 +75,35 @@ Extensions used by unit Hfiledd (each one only takes effect when its option is g
     opts['wrap_int_conv']: a conversion to int32 / int64 from an integer type that does not fit (uint32 -> int32, 64 -> 32 bits) wraps
     (implementation-defined in C, two's complement on every supported target) instead of being assumed representable.
 
+  Extensions for the Vdata schema functions of vsfld.c (unit Vsfld; all opt-in through what the C text / the options contain):
+  * opts['assume_calls'][f] = 'object': `w = (T *)f(…)` binds the struct-pointer local `w` to an object outside the function: `w` acts as a
+    struct parameter (its members are entry fields `w_…`, also through further struct-pointer locals `vs = w->vs`, `wl = &(vs->wlist)`),
+    `(w = f(…)) == NULL` / `w == NULL` are answered by the entry Bool `w_null`; NULL tests of such alias locals (`vs == NULL`) by `w_vs_null`;
+  * a local handed to an assumed call as `&x` (`scanattrs(fields, &ac, &av)`) is an ENTRY PARAMETER holding from the start what the call
+    stores: an integer `x`, or for `char **x` a read-only array of rows (`av[i]` = row i); such a local must have no initialiser and no
+    other assignment (reading it where C would read an uninitialised variable is therefore not flagged);
+  * arrays of structs with a pointer member: `p->arr[i].name` (pointer to integers) is row i of the array of rows `p_arr_name` (beside the
+    integer members `p_arr_fld`, one region each); a global array of structs is read through opts['globals']['<name>.<member>'] (integer
+    members: generated `List Nat` tables, pointer members: generated `List (List Int)` tables of NUL-terminated rows);
+  * `q = p->arr` (struct-array local), `q = malloc(bytes)` / `q = realloc(q, bytes)`, `p->arr = q`: every member region of the array gets
+    bytes / sizeof(struct) cells (old cells kept, new integer cells hold the poison value 170, new rows are NULL rows `[]`), `p_arr_null`
+    becomes false; the member list is settled by a second translation pass; using `p->arr` between the reallocation and `p->arr = q` fails;
+  * `strcmp(a, b)` -> `(strcmpC A B).getD 0` with the check `(strcmpC A B).isSome` (`strcmpC`, emitted into the unit: cells compared as
+    unsigned chars up to the first difference / NUL, -1/0/1; running past the end of a region = undefined behaviour);
+  * a row of an array of rows (`p->name[i]`, `p->arr[i].name`) := `strdup(s)` (the cells of `s` up to and including its NUL; checked: a NUL
+    exists) or `NULL` (the empty row: every access through it is undefined behaviour); `(row = strdup(…)) == NULL` is False;
+  * opts['null_empties'] (this unit's form of member allocation; WITHOUT the option member_malloc / the member NULL flags of the
+    vunpackvg / vunpackvs units apply): `p->m = malloc(bytes)` for an integer-pointer or `T **` member: checked `0 ≤ bytes / sizeof(elem)`,
+    a fresh region of that many poison cells resp. NULL rows, `p_m_null` := false, `(p->m = malloc(…)) == NULL` is False;
+    `p->m = NULL` also empties the region (not only `p_m_null` := true);
+  * pointer members seated INSIDE the block of another member (`p->type = (int16 *)p->bptr; p->off = (uint16 *)p->type + n`): found in the
+    text and resolved statically like pointer locals; the member is the cursor `p_m_i` (an entry parameter) into that member's region.
+    (opts['member_cursors'] of the vunpackvs unit NAMES such members instead - index field `p_m`; when that option is given the detection
+    in the text is off.  Two forms of one feature: to be unified, which renames the fields of one of the two units);
+  * (calls of `DFKNTsize`, translated in unit Dfconv, go through opts['use_units']);
+  * `sizeof(T)` of a typedef'd struct and `sizeof(global array)` are compiled against the headers and printed (like enum constants);
+  * `x++` / `x--` on a SIGNED type narrower than int wraps like every conversion to such a type (was left unconverted).
+
 Everything outside the supported subset makes the translator FAIL loudly (it never guesses): goto, switch, calls other
 than memcpy and the names in opts['ignore_calls'] (error reporting that does not touch the modelled state),
 address-of other than `&a[i]`, floating point, struct assignment, pointer-to-pointer arithmetic.
@@ -211,6 +240,13 @@ class Fn:
         self.seats = {}          # pointer members re-seated to a block the function allocated: member region name -> block region
         self.used_names = set()
         self.plist = []
+        self.obj_locals = {}     # struct-pointer locals bound to the result of an assumed call (opts['assume_calls'][f] = 'object'): local -> callee
+        self.rowlocals = set()   # `char **` locals filled in by an assumed call through `&x`: read-only arrays of rows, entry parameters
+        self.outvars = set()     # integer locals filled in by an assumed call through `&x`: entry parameters
+        self.mcursor = {}        # pointer members seated inside ANOTHER member's block (`p->type = p->bptr + k`): member field -> region
+        self.sa_fields = {k_: list(v_) for k_, v_ in opts.get("_sa_fields", {}).items()}   # array-of-struct members: base field -> [(member, kind)]
+        self.sa_resized = False
+        self.detached = set()    # struct-array locals between `q = realloc(q, …)` and `p->m = q`
         self.struct_arrays = {}  # `<p>_<arr>` (a member pointing to structs) -> its field regions `<p>_<arr>_<fld>`, in order of first access
         self.cursors = {}        # struct-pointer locals that move over an array of structs: name -> (struct parameter, member path); index in field `name`
         self.notes = list(opts.get("_frag_notes", []))
@@ -322,10 +358,21 @@ class Fn:
             cur_ = self.member_cursor(n)
             if cur_ is not None:
                 return (self.owned(cur_[2], self.region, cur_[0]), "s.%s" % self.owned(cur_[2], self.scalar, cur_[1], entry=True), [], [])
+            row = self.sa_row(n)
+            if row is not None:
+                return row
+            cur = self.seated_member(n)
+            if cur is not None:
+                return cur
             return (self.member_region(n), "0", [], [])
         if k == "ArraySubscriptExpr" and ptr_elem(qt(n)) is not None:
             # element of an array of pointers: info->row[k]  -> the region info_row (the caller passes that row)
             b = self.skip(n["inner"][0])
+            if b.get("kind") == "DeclRefExpr" and b["referencedDecl"]["name"] in self.rowlocals:
+                # row of the array of rows an assumed call handed back through `&x` (read-only entry parameter)
+                fld = lname(b["referencedDecl"]["name"])
+                it, ic, ie = self.rvalue(n["inner"][1])
+                return ("#%s#%s" % (fld, it), "0", ic + ["0 ≤ %s ∧ %s < s.%s.length" % (it, it, fld)], ie)
             if b.get("kind") == "DeclRefExpr" and b["referencedDecl"]["name"] in self.ptr and self.ptr[b["referencedDecl"]["name"]] in self.local_regions:
                 # element of an array of pointers the function allocated: an address of the flat memory
                 lv = self.lvalue(n)
@@ -469,6 +516,100 @@ class Fn:
             self.esz[reg] = w[1] // 8
         return reg
 
+    def sa_base(self, b):
+        """`b` = `X[i]` with X an array of structs: a member chain `p->…->arr` -> ('m', field, p); a global whose members are listed in
+        opts['globals'] as '<name>.<member>' -> ('g', name, None); otherwise None"""
+        if b.get("kind") != "ArraySubscriptExpr":
+            return None
+        bb = self.skip(b["inner"][0])
+        if bb.get("kind") == "MemberExpr":
+            p2, path2 = self.member_chain(bb)
+            if p2 is not None:
+                if (p2, tuple(path2)) in self.detached:
+                    fail("%s: %s->%s is used between the reallocation through a local and the store of the new block" % (self.name, p2, ".".join(path2)))
+                return ("m", lname("%s_%s" % (p2, "_".join(path2))), p2)
+        if bb.get("kind") == "DeclRefExpr":
+            nm = bb["referencedDecl"]["name"]
+            if any(k_.startswith(nm + ".") for k_ in self.globals):
+                return ("g", nm, None)
+        return None
+
+    def sa_note(self, base, member, kind):
+        l = self.sa_fields.setdefault(base, [])
+        if (member, kind) not in l:
+            l.append((member, kind))
+
+    def sa_row(self, n):
+        """`arr[i].name` with a pointer member: row i of the array of rows `<arr>_name` (for a global: of the generated table)"""
+        b = self.skip(n["inner"][0])
+        sb = self.sa_base(b)
+        if sb is None:
+            return None
+        if int_width(ptr_elem(qt(n)) or "") is None:
+            fail("%s: member %s of an array of structs is not a pointer to integers" % (self.name, n["name"]))
+        it, ic, ie = self.rvalue(b["inner"][1])
+        if sb[0] == "g":
+            key = "%s.%s" % (sb[1], n["name"])
+            if key not in self.globals:
+                fail("%s: member %s of the global %s is not listed in opts['globals']" % (self.name, n["name"], sb[1]))
+            return ("#@%s#%s" % (key, it), "0", ic + ["0 ≤ %s ∧ %s < (%s).length" % (it, it, self.globals[key])], ie)
+        fld = lname("%s_%s" % (sb[1], n["name"]))
+        if fld in self.regions:
+            fail("%s: %s is used both as a region and as an array of rows" % (self.name, fld))
+        if fld not in self.rowsets:
+            self.rowsets.append(fld)
+            self.owned(sb[2], self.add_entry, fld, "List (List Int)")
+        self.sa_note(sb[1], n["name"], "rows")
+        return ("#%s#%s" % (fld, it), "0", ic + ["0 ≤ %s ∧ %s < s.%s.length" % (it, it, fld)], ie)
+
+    def member_field(self, m):
+        p, path = self.member_chain(m)
+        return (p, lname("%s_%s" % (p, "_".join(path)))) if p is not None else (None, None)
+
+    def seated_member(self, m):
+        """a pointer member that this function seats inside another member's block (`p->type = p->bptr + k`): the region is that block,
+        the index is the state field `<member>_i` (an entry parameter: where the member points at entry)"""
+        p, fld = self.member_field(m)
+        if p is None or fld not in self.mcursor:
+            return None
+        reg = self.mcursor[fld]
+        self.owned(p, self.region, reg)
+        ix = self.owned(p, self.scalar, fld + "_i", entry=True)
+        return (reg, "s.%s" % ix, [], [])
+
+    def is_rows_member_type(self, m):
+        t = base_type(qt(m))
+        return t.endswith("**") and int_width(ptr_elem(ptr_elem(t) or "") or "") is not None
+
+    def is_rows_member(self, m):
+        """a member of type `T **` (not `T *[N]`) that is registered as an array of rows"""
+        p, fld = self.member_field(m)
+        return p is not None and fld in self.rowsets
+
+    def row_target(self, n):
+        """the row an lvalue of pointer type denotes (`p->name[i]`, `p->arr[i].name`, `av[i]`): ('#field#index', checks, effects), or None"""
+        n = self.skip(n)
+        k = n.get("kind")
+        if k == "MemberExpr" and self.sa_base(self.skip(n["inner"][0])) is not None:
+            r, i, c, e = self.sa_row(n)
+            return r, c, e
+        if k == "ArraySubscriptExpr" and ptr_elem(qt(n)) is not None and int_width(ptr_elem(qt(n))) is not None:
+            b = self.skip(n["inner"][0])
+            if b.get("kind") == "DeclRefExpr" and b["referencedDecl"]["name"] in self.rowlocals:
+                r, i, c, e = self.pexpr(n)
+                return r, c, e
+            if b.get("kind") == "MemberExpr" and self.is_rows_member(b):
+                r, i, c, e = self.pexpr(n)
+                if r.startswith("#"):
+                    return r, c, e
+        return None
+
+    def string_at(self, r, i):
+        """the NUL-terminated string that starts at cell i of region r, INCLUDING its NUL: (term, checks)"""
+        src = self.rt(r) if i == "0" else "(%s.drop (Int.toNat (%s)))" % (self.rt(r), i)
+        chk = ["(0 : Int) ∈ %s" % src] if i == "0" else ["0 ≤ %s ∧ (0 : Int) ∈ %s" % (i, src)]
+        return "(%s.take ((%s.takeWhile (· ≠ 0)).length + 1))" % (src, src), chk
+
     # ---------------------------------------------------------------- lvalues
     def lvalue(self, n):
         """-> ('scalar', field, type) | ('elem', region, index term, checks, effects, type)"""
@@ -524,10 +665,22 @@ class Fn:
                     # info->arr[i].fld : the region info_arr_fld
                     if ty is None:
                         fail("%s: member %s->%s[].%s is not an integer" % (self.name, p2, ".".join(path2), fld))
+                    if (p2, tuple(path2)) in self.detached:
+                        fail("%s: %s->%s is used between the reallocation through a local and the store of the new block" % (self.name, p2, ".".join(path2)))
+                    self.sa_note(lname("%s_%s" % (p2, "_".join(path2))), fld, "int")
                     reg = self.owned(p2, self.region, "%s_%s_%s" % (p2, "_".join(path2), fld))
                     sa_ = self.struct_arrays.setdefault(lname("%s_%s" % (p2, "_".join(path2))), [])
                     if reg not in sa_:
                         sa_.append(reg)
+                    it, ic, ie = self.rvalue(b["inner"][1])
+                    return ("elem", reg, it, ic + [self.inb(reg, it)], ie, ty)
+            if b.get("kind") == "ArraySubscriptExpr":
+                bb = self.skip(b["inner"][0])
+                if bb.get("kind") == "DeclRefExpr" and ("%s.%s" % (bb["referencedDecl"]["name"], fld)) in self.globals:
+                    # tab[i].fld of a global array of structs: the generated table `<tab>.<fld>` (read-only)
+                    if ty is None:
+                        fail("%s: member %s[].%s is not an integer" % (self.name, bb["referencedDecl"]["name"], fld))
+                    reg = "@%s.%s" % (bb["referencedDecl"]["name"], fld)
                     it, ic, ie = self.rvalue(b["inner"][1])
                     return ("elem", reg, it, ic + [self.inb(reg, it)], ie, ty)
             p, path = self.member_chain(n)
@@ -590,6 +743,8 @@ class Fn:
         """Lean term of a region: a state field, or (read-only) one row of an array of rows `#field#index`"""
         if r.startswith("#"):
             _, f, ix = r.split("#", 2)
+            if f.startswith("@"):
+                return "((%s).getD (Int.toNat (%s)) [])" % (self.globals[f[1:]], ix)
             return "(s.%s.getD (Int.toNat (%s)) [])" % (f, ix)
         return "s.%s" % r
 
@@ -646,7 +801,7 @@ class Fn:
                     fail("%s: ++/-- on a memory cell or pointer inside an integer expression" % self.name)
                 ty = lv[2]
                 cur = "s.%s" % lv[1]
-                new = self.arith("+" if op == "++" else "-", cur, "1", ty)
+                new = self.narrow(self.arith("+" if op == "++" else "-", cur, "1", ty), ty)
                 eff = Eff(lv, new, lv[1])
                 return (cur if n.get("isPostfix") else new), [], [eff]
             ty = int_width(qt(n))
@@ -708,6 +863,21 @@ class Fn:
                     fail("%s: side effect in strlen argument" % self.name)
                 rest = "(%s.drop (Int.toNat (%s)))" % (self.rt(r), i)
                 return "(Int.ofNat (%s.takeWhile (· ≠ 0)).length)" % rest, c + ["0 ≤ %s ∧ (0 : Int) ∈ %s" % (i, rest)], []
+            if nm in ("strcmp", "HDstrcmp", "__builtin_strcmp"):
+                # compares the NUL-terminated strings that start at the two pointers: -1 / 0 / 1 (C fixes only the sign); a read past the
+                # end of either region (no NUL before it, while the strings agree) is undefined behaviour
+                ra, ia, ca, ea = self.pexpr(n["inner"][1])
+                rb, ib, cb, eb = self.pexpr(n["inner"][2])
+                if ea or eb:
+                    fail("%s: side effect in strcmp arguments" % self.name)
+                def from_(r, i):
+                    return (self.rt(r) if not r.startswith("@") else "(%s)" % self.globals[r[1:]]) if i == "0" else "(%s.drop (Int.toNat (%s)))" % (self.rt(r), i)
+                if ra.startswith("@") or rb.startswith("@"):
+                    fail("%s: strcmp on a global integer table" % self.name)
+                A, B = from_(ra, ia), from_(rb, ib)
+                self.opts["_uses"].add("strcmp")
+                pos = [("0 ≤ %s" % i) for i in (ia, ib) if i != "0"]
+                return "((strcmpC %s %s).getD 0)" % (A, B), ca + cb + pos + ["(strcmpC %s %s).isSome = true" % (A, B)], []
             if nm in self.opts.get("_fns", {}):
                 return self.call_translated(n, nm)
             if nm in self.opts.get("pure_calls", []):
@@ -721,6 +891,8 @@ class Fn:
             if nm in self.opts.get("assume_calls", {}):
                 # a call whose effect is outside the modelled state and which is ASSUMED to return this value (trusted base)
                 val = str(self.opts["assume_calls"][nm])
+                if val == "object":
+                    fail("%s: result of %s (an object outside the function) used as an integer" % (self.name, nm))
                 if val.startswith("table:"):
                     # the answer is read from a table given at entry, indexed by the value of argument number k (1-based); one call site only
                     # (its other arguments are the same expressions at every execution); the modelled state is left unchanged
@@ -824,6 +996,10 @@ class Fn:
                 return "8", [], []      # a pointer (LP64 host, as recorded in the trusted base)
             if w is None and at and re.match(r"^\w+$", base_type(at)):
                 return self.const("sizeof(%s)" % base_type(at)), [], []      # a struct typedef: compiled and printed like the other constants
+            if w is None and not at and n.get("inner"):
+                e0 = self.skip(n["inner"][0])
+                if e0.get("kind") == "DeclRefExpr" and re.match(r"^\w+$", e0["referencedDecl"]["name"]):
+                    return self.const("sizeof(%s)" % e0["referencedDecl"]["name"]), [], []    # sizeof(global array): compiled and printed
             if w is None:
                 fail("%s: sizeof of %s" % (self.name, at))
             return str(w[1] // 8), [], []
@@ -840,6 +1016,12 @@ class Fn:
     def wrapu(self, t, ty):
         if ty is not None and not ty[0]:
             return "((%s) %% %d)" % (t, 2 ** ty[1])
+        return t
+
+    def narrow(self, t, ty):
+        """x++ / x-- on a SIGNED type narrower than int: computed in int, then converted back (wraps, as `conv` does for every such conversion)"""
+        if ty is not None and ty[0] and ty[1] < 32:
+            return self.conv(t, (True, 32), ty)
         return t
 
     def arith(self, op, a, b, ty):
@@ -934,12 +1116,29 @@ class Fn:
             nm = n["referencedDecl"]["name"]
             if nm in self.structs or nm in self.ptr_is_param_region:
                 f = self.owned(nm, self.boolf, "%s_null" % nm)
+            elif nm in self.aliases:
+                p, path = self.aliases[nm]
+                f = self.owned(p, self.boolf, "%s_%s_null" % (p, "_".join(path)))
+        if f is None and k == "BinaryOperator" and n.get("opcode") == "=":
+            lhs = self.skip(n["inner"][0])
+            if lhs.get("kind") == "DeclRefExpr" and lhs["referencedDecl"]["name"] in self.objects:
+                pass    # object_calls: handled below
+            elif lhs.get("kind") == "DeclRefExpr" and lhs["referencedDecl"]["name"] in self.obj_locals:
+                # `(w = assumed_call(…)) == NULL`: the answer is the entry parameter `w_null`
+                f = self.owned(lhs["referencedDecl"]["name"], self.boolf, "%s_null" % lhs["referencedDecl"]["name"])
+            elif (lhs.get("kind") == "DeclRefExpr" and lhs["referencedDecl"]["name"] in self.alias_locals) \
+                    or (self.row_target(lhs) is not None and self.static_region(n["inner"][1]) != "!malloc") \
+                    or (lhs.get("kind") == "MemberExpr" and self.is_rows_member_type(lhs) and self.opts.get("null_empties")):
+                # the store happens before the statement; malloc / realloc / strdup never fail (trusted base)
+                self.pre_lines += self.assignment(n, "")
+                return ("False" if want_null else "True"), [], []
         if k == "MemberExpr":
             p, path = self.member_chain(n)
             if p is not None:
                 f = self.owned(p, self.boolf, "%s_%s_null" % (p, "_".join(path)))
         if f is None and k == "BinaryOperator" and n.get("opcode") == "=" and self.skip(n["inner"][0]).get("kind") == "MemberExpr" \
-                and self.member_chain(self.skip(n["inner"][0]))[0] is not None and self.static_region(n["inner"][1]) == "!malloc":
+                and self.member_chain(self.skip(n["inner"][0]))[0] is not None and self.static_region(n["inner"][1]) == "!malloc" \
+                and not self.opts.get("null_empties"):
             # `(p->m = malloc(n)) == NULL`: the assignment happens first, the test reads the member's NULL flag
             self.pre_lines += self.assignment(n, "")
             p, path = self.member_chain(self.skip(n["inner"][0]))
@@ -1110,7 +1309,15 @@ class Fn:
                         out += self.cursor_assign(nm, init[0], ind)
                     continue
                 if nm in self.alias_locals:
+                    if init and not self.is_null(init[0]):
+                        i0 = init[0]
+                        while i0.get("kind") in ("ParenExpr", "ImplicitCastExpr", "CStyleCastExpr"):
+                            i0 = i0["inner"][0]
+                        if i0.get("kind") == "CallExpr" and self.callee_name(i0) in ("malloc", "HDmalloc", "realloc", "HDrealloc"):
+                            fail("%s: struct pointer %s initialised with an allocation" % (self.name, nm))
                     continue     # an alias of a struct parameter's member: bound statically
+                if nm in self.rowlocals:
+                    continue     # filled in by an assumed call: an entry parameter
                 if d.get("storageClass") == "static":
                     continue     # a static local is an entry parameter (its value persists between calls); its initialiser is not re-run
                 if nm in self.ptr:
@@ -1170,7 +1377,7 @@ class Fn:
                 return self.with_effects(c, [], e, ind)
             lv = self.lvalue(sub)
             cur = "s.%s" % lv[1] if lv[0] == "scalar" else self.read(lv[1], lv[2])
-            v = self.arith("+" if n["opcode"] == "++" else "-", cur, "1", int_width(qt(n)))
+            v = self.narrow(self.arith("+" if n["opcode"] == "++" else "-", cur, "1", int_width(qt(n))), int_width(qt(n)))
             le = lv[4] if lv[0] == "elem" else []
             return self.with_effects(lv[3] if lv[0] == "elem" else [], [(lv, v)], le, ind)
         if k == "CallExpr":
@@ -1334,6 +1541,38 @@ class Fn:
             if sl.get("kind") == "DeclRefExpr" and sl["referencedDecl"]["name"] in self.cursors:
                 return self.cursor_assign(sl["referencedDecl"]["name"], rhs, ind)
             if sl.get("kind") == "DeclRefExpr" and sl["referencedDecl"]["name"] in self.alias_locals:
+                if srhs.get("kind") == "CallExpr" and self.callee_name(srhs) in ("malloc", "HDmalloc", "realloc", "HDrealloc"):
+                    return self.sa_resize(sl["referencedDecl"]["name"], lhs, srhs, ind)
+                return []
+            rt_ = self.row_target(sl) if (self.is_null(rhs) or (srhs.get("kind") == "CallExpr" and self.callee_name(srhs) in ("strdup", "HDstrdup", "__builtin_strdup"))) else None
+            if rt_ is not None:
+                # one row of an array of rows := NULL | strdup(string)
+                r, c, e = rt_
+                _, f, ix = r.split("#", 2)
+                if f.startswith("@"):
+                    fail("%s: store into a global" % self.name)
+                if self.is_null(rhs):
+                    val, pc = "[]", []          # a NULL row: every access through it is undefined behaviour
+                elif srhs.get("kind") == "CallExpr" and self.callee_name(srhs) in ("strdup", "HDstrdup", "__builtin_strdup"):
+                    pr, pi, pc0, pe = self.pexpr(srhs["inner"][1])
+                    if pe or pr.startswith("@"):
+                        fail("%s: unsupported strdup argument" % self.name)
+                    val, pc1 = self.string_at(pr, pi)      # a fresh block holding the string and its NUL; never fails (trusted base)
+                    pc = pc0 + pc1
+                else:
+                    fail("%s: a row of %s is assigned something that is neither NULL nor strdup(…)" % (self.name, f))
+                if e:
+                    fail("%s: side effect in the index of a row store" % self.name)
+                self.rows_written.add(f)
+                return self.checks(c + pc, ind) + [self.upd(f, "s.%s.set (Int.toNat (%s)) (%s)" % (f, ix, val), ind)]
+            if sl.get("kind") == "MemberExpr" and int_width(ptr_elem(qt(sl)) or "") is None and ptr_elem(ptr_elem(qt(sl)) or "") is None and ptr_elem(qt(sl)) != "void" \
+                    and self.skip(rhs).get("kind") == "DeclRefExpr" and self.skip(rhs)["referencedDecl"]["name"] in self.aliases:
+                # `p->arr = q` with q the struct-array local that was bound to p->arr (and reallocated): the member regions ARE q's
+                p, path = self.member_chain(sl)
+                r0 = self.skip(rhs)
+                if p is None or self.aliases.get(r0["referencedDecl"]["name"]) != (p, path):
+                    fail("%s: array-of-structs member assigned a local that is bound to another member" % self.name)
+                self.detached.discard((p, tuple(path)))
                 return []
             if sl.get("kind") == "ArraySubscriptExpr" and self.skip(sl["inner"][0]).get("kind") == "MemberExpr" \
                     and srhs.get("kind") == "CallExpr" and self.static_region(srhs) == "!malloc":
@@ -1356,6 +1595,46 @@ class Fn:
                     val = "if (%s > 9223372036854775807) then [] else %s" % (a1, val)
                 self.rows_written.add(f_)
                 return self.checks(c + c1, ind) + [self.upd(f_, "s.%s.set (Int.toNat (%s)) (%s)" % (f_, ix_, val), ind)]
+            if sl.get("kind") == "MemberExpr" and self.opts.get("null_empties") and (self.is_null(rhs) or (srhs.get("kind") == "CallExpr" and self.callee_name(srhs) in ("malloc", "HDmalloc"))):
+                # opts['null_empties'] (the c07fld form of member allocation; without the option `p->m = NULL` only sets `p_m_null` and
+                # `p->m = malloc(..)` is member_malloc below): `p->m = NULL`: the region becomes empty (every access is undefined behaviour)
+                # and `p_m_null` true;
+                # `p->m = malloc(bytes)`: a fresh block of bytes / sizeof(*p->m) cells holding the poison value 170 (rows: NULL rows); never fails
+                p, fld = self.member_field(sl)
+                if p is None:
+                    fail("%s: member %s of something that is not a struct parameter" % (self.name, sl.get("name")))
+                rows = self.is_rows_member_type(sl)
+                if fld in self.mcursor:
+                    fail("%s: %s is seated inside another block and assigned NULL / malloc" % (self.name, fld))
+                if rows:
+                    if fld in self.regions:
+                        fail("%s: %s is used both as a region and as an array of rows" % (self.name, fld))
+                    if fld not in self.rowsets:
+                        self.rowsets.append(fld)
+                        self.owned(p, self.add_entry, fld, "List (List Int)")
+                    esz, fillv, empty = 8, "[]", "[]"
+                else:
+                    el_ = ptr_elem(qt(sl))
+                    if int_width(el_ or "") is None:
+                        fail("%s: member %s of type %s assigned NULL / malloc" % (self.name, fld, qt(sl)))
+                    self.member_region(sl)
+                    esz, fillv, empty = int_width(el_)[1] // 8, "170", "[]"
+                nf = self.owned(p, self.boolf, fld + "_null")
+                if self.is_null(rhs):
+                    return [self.upd(fld, empty, ind), self.upd(nf, "true", ind)]
+                a1, c1, e1 = self.rvalue(srhs["inner"][1])
+                if e1:
+                    fail("%s: side effect in malloc argument" % self.name)
+                cells = "(Int.tdiv %s %d)" % (a1, esz)
+                return self.checks(c1 + ["(0 : Int) ≤ %s" % cells], ind) + [self.upd(fld, "List.replicate (Int.toNat %s) %s" % (cells, fillv), ind), self.upd(nf, "false", ind)]
+            if sl.get("kind") == "MemberExpr" and self.member_field(sl)[1] in self.mcursor:
+                # `p->m = <pointer into the block of another member>`: the index of the cursor
+                p, fld = self.member_field(sl)
+                r, i, c, e = self.pexpr(rhs)
+                if r != self.mcursor[fld]:
+                    fail("%s: member pointer %s is seated in region %s and in region %s" % (self.name, fld, self.mcursor[fld], r))
+                ix = self.owned(p, self.scalar, fld + "_i", entry=True)
+                return self.with_effects(c, [(("scalar", ix), i)], e, ind)
             if sl.get("kind") == "ArraySubscriptExpr":
                 # element of an array of pointers held in a block of the function: it stores an ADDRESS of the flat memory
                 lv = self.lvalue(sl)
@@ -1458,6 +1737,51 @@ class Fn:
         lv = self.lvalue(lhs)
         le = lv[4] if lv[0] == "elem" else []
         return self.with_effects(c + (lv[3] if lv[0] == "elem" else []), [(lv, t)], e + le, ind)
+
+    def callee_name(self, call):
+        return self.skip(call["inner"][0]).get("referencedDecl", {}).get("name")
+
+    def sa_resize(self, nm, lhs, call, ind):
+        """`q = malloc(bytes)` / `q = realloc(q, bytes)` for the struct-array local q bound to the member `p->arr`: every member region
+        `p_arr_<m>` the function uses gets bytes / sizeof(struct) cells (kept cells first, new cells hold the poison value 170, new rows
+        are NULL rows); allocation never fails (trusted base).  `p->arr` must not be used again before `p->arr = q`."""
+        if nm not in self.aliases:
+            fail("%s: struct pointer %s is allocated but bound to no member" % (self.name, nm))
+        p, path = self.aliases[nm]
+        base = lname("%s_%s" % (p, "_".join(path)))
+        ety = base_type(lhs.get("type", {}).get("qualType", ""))
+        ety = ety[:-1].strip() if ety.endswith("*") else None
+        if not ety or not re.match(r"^\w+$", ety):
+            fail("%s: element type of %s" % (self.name, nm))
+        cn = self.callee_name(call)
+        is_re = cn in ("realloc", "HDrealloc")
+        if is_re:
+            a0 = self.skip(call["inner"][1])
+            if a0.get("kind") != "DeclRefExpr" or a0["referencedDecl"]["name"] != nm:
+                fail("%s: realloc of %s into %s" % (self.name, a0.get("kind"), nm))
+        bt, bc, be = self.rvalue(call["inner"][2 if is_re else 1])
+        if be:
+            fail("%s: side effect in an allocation size" % self.name)
+        cells = "(Int.tdiv %s %s)" % (bt, self.const("sizeof(%s)" % ety))
+        out = self.checks(bc + ["(0 : Int) ≤ %s" % cells], ind)
+        out.append("%slet ncells : Int := %s" % (ind, cells))
+        self.sa_resized = True
+        for m, kind in self.sa_fields.get(base, []):
+            fld = lname("%s_%s" % (base, m))
+            fill = "170" if kind == "int" else "[]"
+            if kind == "int":
+                self.owned(p, self.region, fld)
+            elif fld not in self.rowsets:
+                self.rowsets.append(fld)
+                self.owned(p, self.add_entry, fld, "List (List Int)")
+            if is_re:
+                out.append(self.upd(fld, "(s.%s.take (Int.toNat ncells)) ++ List.replicate (Int.toNat ncells - s.%s.length) %s" % (fld, fld, fill), ind))
+            else:
+                out.append(self.upd(fld, "List.replicate (Int.toNat ncells) %s" % fill, ind))
+        nf = self.owned(p, self.boolf, base + "_null")
+        out.append(self.upd(nf, "false", ind))
+        self.detached.add((p, tuple(path)))
+        return out
 
     def xparams(self):
         """opts['pure_calls']: external functions of one integer argument whose result depends on the argument only (no effect on the
@@ -1958,7 +2282,8 @@ class Fn:
             if self.member_cursor(n) is not None:
                 return self.member_cursor(n)[0]
             p, path = self.member_chain(n)
-            return lname("%s_%s" % (p, "_".join(path))) if p else None
+            own = lname("%s_%s" % (p, "_".join(path))) if p else None
+            return self.mcursor.get(own, own)
         if k == "ArraySubscriptExpr":
             return self.static_region(n["inner"][0])
         if k == "BinaryOperator" and n["opcode"] in ("+", "-"):
@@ -1993,12 +2318,53 @@ class Fn:
     def resolve_ptr_locals(self, body):
         assigns = []    # (pointer local, rhs node)
         alias_assigns = []
+        massigns = []   # (member lvalue of integer-pointer type, rhs node)
+        vardecls = {}
+
+        def prewalk(n):
+            # locals handed to an assumed call as `&x`: x holds FROM THE START what the call stores (an entry parameter)
+            if n.get("kind") == "VarDecl":
+                vardecls[n["name"]] = n
+            if n.get("kind") == "CallExpr" and self.callee_name(n) in self.opts.get("assume_calls", {}):
+                for a in n["inner"][1:]:
+                    a = self.skip(a)
+                    if a.get("kind") == "UnaryOperator" and a.get("opcode") == "&":
+                        x = self.skip(a["inner"][0])
+                        if x.get("kind") != "DeclRefExpr" or x["referencedDecl"].get("kind") != "VarDecl":
+                            fail("%s: `&` argument of the assumed call %s is not a local variable" % (self.name, self.callee_name(n)))
+                        xn, xt = x["referencedDecl"]["name"], base_type(qt(x))
+                        if int_width(xt) is not None:
+                            self.outvars.add(xn)
+                        elif xt.endswith("**") and int_width(ptr_elem(ptr_elem(xt) or "") or "") is not None:
+                            self.rowlocals.add(xn)
+                        else:
+                            # not an integer or a `char **`: left alone (the argument of an assumed call is not translated; a later
+                            # READ of the local fails as an unresolved pointer local)
+                            continue
+                        note = "`%s` holds from the start what `%s` stores through `&%s`" % (xn, self.callee_name(n), xn)
+                        if note not in self.notes:
+                            self.notes.append(note)
+            for c in n.get("inner", []):
+                prewalk(c)
+        prewalk(body)
+        written = self.assigned_vars(body)
+        for xn in sorted(self.outvars | self.rowlocals):
+            d = vardecls.get(xn)
+            if d is None or [c for c in d.get("inner", []) if c.get("kind")] or xn in written:
+                fail("%s: %s is filled in by an assumed call and also initialised / assigned" % (self.name, xn))
+        for xn in [x for x in vardecls if x in self.outvars]:
+            self.scalar(xn, entry=True)
+        for xn in [x for x in vardecls if x in self.rowlocals]:
+            self.rowsets.append(lname(xn))
+            self.add_entry(lname(xn), "List (List Int)")
         null_only = set()
         null_inits = []   # pointer locals declared with `= NULL`
         seat_assigns = []  # (member lvalue, rhs): pointer members that are assigned a non-NULL pointer
 
         def walk(n):
             k = n.get("kind")
+            if k == "VarDecl" and n["name"] in self.rowlocals:
+                return
             if k == "VarDecl" and ptr_elem(qt(n)) is not None and not re.search(r"\[\d+\]$", base_type(qt(n))):
                 init = [c for c in n.get("inner", []) if c.get("kind")]
                 el_ = ptr_elem(qt(n))
@@ -2034,6 +2400,8 @@ class Fn:
                     self.nullable.add(l["referencedDecl"]["name"])
                 elif l.get("kind") == "MemberExpr" and not self.is_null(n["inner"][1]):
                     seat_assigns.append((l, n["inner"][1]))
+                    if int_width(ptr_elem(qt(l)) or "") is not None:
+                        massigns.append((l, n["inner"][1]))
             for c in n.get("inner", []):
                 walk(c)
         walk(body)
@@ -2066,6 +2434,23 @@ class Fn:
             if nm in self.cursors:
                 fail("%s: struct pointer %s is bound to two different objects" % (self.name, nm))
             r = self.skip(rhs)
+            r1 = rhs
+            while r1.get("kind") in ("ParenExpr", "ImplicitCastExpr", "CStyleCastExpr"):
+                r1 = r1["inner"][0]
+            if r1.get("kind") == "CallExpr":
+                cn = self.callee_name(r1)
+                if self.opts.get("assume_calls", {}).get(cn) == "object":
+                    # the object an assumed call hands back: the local acts as a struct parameter (members = entry fields `<local>_…`)
+                    if nm in self.aliases or self.obj_locals.get(nm, cn) != cn:
+                        fail("%s: struct pointer %s is bound to two different objects" % (self.name, nm))
+                    self.obj_locals[nm] = cn
+                    self.structs.add(nm)
+                    note = "`%s` is the object `%s` returns (its members are entry parameters, `%s_null` = the call returned NULL)" % (nm, cn, nm)
+                    if note not in self.notes:
+                        self.notes.append(note)
+                    continue
+                if cn in ("malloc", "HDmalloc", "realloc", "HDrealloc"):
+                    continue       # resized at the statement (sa_resize); the local stays bound to its member
             cb = self.cursor_base(r)
             if cb is not None and (nm in moved or cb[2] is not None):
                 # a CURSOR over the array of structs p->arr: an index field; q->fld is the cell q of the region p_arr_fld
@@ -2105,12 +2490,32 @@ class Fn:
                 fail("%s: struct pointer %s is bound to two different objects" % (self.name, nm))
             self.aliases[nm] = (p0, path0)
         for nm in sorted(self.alias_locals):
-            if nm not in self.aliases and nm not in self.objects and nm not in self.cursors:
+            if nm not in self.aliases and nm not in self.objects and nm not in self.cursors and nm not in self.obj_locals:
                 if nm not in self.used_names:
                     continue      # declared but never used (its uses were in an unmodelled switch group)
                 if self.opts.get("object_calls") and nm in null_only:
                     continue     # only ever NULL (its address is handed to an assumed call): any dereference fails in member_chain
                 fail("%s: struct pointer %s is never bound" % (self.name, nm))
+        # pointer members seated inside the block of ANOTHER member (`p->type = (T *)p->bptr; p->off = p->type + n`), found in the text
+        # (index field `<member>_i`); not with opts['member_cursors'], which names such members explicitly (index field `<member>`)
+        changed = not self.opts.get("member_cursors")
+        while changed:
+            changed = False
+            for l, rhs in massigns:
+                p_, own = self.member_field(l)
+                r1 = rhs
+                while r1.get("kind") in ("ParenExpr", "ImplicitCastExpr", "CStyleCastExpr"):
+                    r1 = r1["inner"][0]
+                if p_ is None or r1.get("kind") == "CallExpr":
+                    continue
+                r = self.static_region(rhs)
+                if r is None or r == own or r.startswith("@") or r.startswith("!") or r in self.local_regions:
+                    continue       # (a block of this function: the re-seating of opts-free members, `seats`)
+                if own in self.mcursor and self.mcursor[own] != r:
+                    fail("%s: member pointer %s is seated in two regions (%s, %s)" % (self.name, own, self.mcursor[own], r))
+                if own not in self.mcursor:
+                    self.mcursor[own] = r
+                    changed = True
         changed = True
         while changed:
             changed = False
@@ -2437,9 +2842,20 @@ def resolve_consts(repo, bdir, cfile, names, incs):
         r = subprocess.run([exe], capture_output=True, text=True, env=dict(os.environ, ASAN_OPTIONS="detect_leaks=0"))
         out = {}
         for line in r.stdout.splitlines():
-            a, b = line.split()
+            a, b = line.rsplit(None, 1)
             out[a] = int(b)
         return out
+
+
+STRCMP_DEF = """/-- `strcmp` on the cells of two regions, read from their starts as `unsigned char`s: `none` = the comparison runs past the end of a
+    region (undefined behaviour); otherwise -1 / 0 / 1, the sign of the difference of the first cells that differ -/
+def strcmpC : List Int → List Int → Option Int
+  | [], _ => none
+  | _, [] => none
+  | a :: as, b :: bs =>
+    if a % 256 ≠ b % 256 then some (if a % 256 < b % 256 then -1 else 1)
+    else if a % 256 = 0 then some 0 else strcmpC as bs
+"""
 
 
 def fragment_ast(ast, name, spec, src):
@@ -2601,6 +3017,7 @@ def fragment_ast(ast, name, spec, src):
 def translate_unit(repo, bdir, unit, cfile, fns, opts=None, _want_fns=False):
     opts = dict(opts or {})
     opts["cfile"] = cfile
+    opts["_uses"] = set()
     EXTRA_INT_TYPES.clear()
     for k_, v_ in opts.get("int_types", {}).items():
         EXTRA_INT_TYPES[k_] = (bool(v_[0]), int(v_[1]))
@@ -2628,6 +3045,7 @@ def translate_unit(repo, bdir, unit, cfile, fns, opts=None, _want_fns=False):
                "   Each definition is the statement-by-statement translation of the C function of the same name\n"
                "   (see the header of gen/c2lean.py for the translation scheme and its assumptions). -/\n" % cfile)
     out.append("set_option linter.unusedVariables false\nnamespace H4.Gen.Fn.%s\n" % unit)
+    prelude_at = len(out)
     sigs = {}
     done_fns = dict(used_fns)
     for fn in fns:
@@ -2658,12 +3076,24 @@ def translate_unit(repo, bdir, unit, cfile, fns, opts=None, _want_fns=False):
             txt, params = f.translate()
             if fo.get("_missing_consts"):
                 fail("%s: constants %s could not be resolved" % (fn, sorted(fo["_missing_consts"])))
+        rounds = 0
+        while f.sa_resized and f.sa_fields != {k_: list(v_) for k_, v_ in fo.get("_sa_fields", {}).items()}:
+            # an array of structs is reallocated: every member region the function uses anywhere must be resized, also those first
+            # used behind the allocation; translate again knowing the complete list
+            rounds += 1
+            if rounds > 3:
+                fail("%s: member list of a reallocated array of structs does not settle" % fn)
+            fo["_sa_fields"] = {k_: list(v_) for k_, v_ in f.sa_fields.items()}
+            f = Fn(ast, unit, fo)
+            txt, params = f.translate()
         done_fns[fn] = f
         for long_, short_ in fo.get("abbrev", {}).items():
             txt = txt.replace(long_ + "_", short_ + "_")
             params = [q.replace(long_ + "_", short_ + "_") for q in params]
         out.append(txt)
         sigs[fn] = params
+    if "strcmp" in opts["_uses"]:
+        out.insert(prelude_at, STRCMP_DEF)
     out.append("end H4.Gen.Fn.%s\n" % unit)
     if _want_fns:
         return "\n".join(out), sigs, {k_: v_ for k_, v_ in done_fns.items() if k_ not in used_fns}
